@@ -28,7 +28,8 @@ ASSUMPTIONS = [
 
 ALPHA1 = "qzQZ01"
 ALPHA2 = "jxJX98"
-TMPL = st.lists(st.sampled_from(["c", "c", "c", "c", " ", "%", "%s", "%(x)s", "{}", "{0}", "é", "\t", '"', "\\", "%d", "*", "я", "€", "\udc80"]),
+TMPL = st.lists(st.sampled_from(["c", "c", "c", "c", " ", "%", "%s", "%(x)s", "{}", "{0}", "é", "\t", '"', "\\", "%d", "*", "я", "€", "\udc80",
+                                 "\n", "\r\n"]),
                 min_size=1, max_size=12)
 MODES = ["client", "client", "raw", "early", "twice", "free", "nouser", "reuser", "client_context", "overlimit", "overlimit_server",
          "error_paths", "client_latin1", "client_ascii", "client_latin1", "work", "work", "overlong"]
@@ -50,7 +51,9 @@ class Cap(logging.Handler):
 
 
 def render(t, alpha):
-    return "".join(alpha[i % len(alpha)] if x == "c" else x for i, x in enumerate(t))
+    # "é" stands for "some letter outside ASCII that latin-1 can carry": the twins get different ones, so that anything
+    # derived from its value (e.g. the byte named in a decoding error) shows as a difference
+    return "".join(alpha[i % len(alpha)] if x == "c" else ("ñ" if x == "é" and alpha is ALPHA2 else x) for i, x in enumerate(t))
 
 
 class GhostIO(aioftp.MemoryPathIO):
@@ -160,7 +163,7 @@ async def session(loop, pw, stored, mode, verb):
         try:
             await c.login("bob", pw)
             await c.get_current_directory()
-        except (aioftp.StatusCodeError, UnicodeError, ConnectionError):
+        except (aioftp.StatusCodeError, UnicodeError, ConnectionError, ValueError):
             pass
         c.close()
     elif mode == "client":
@@ -168,14 +171,14 @@ async def session(loop, pw, stored, mode, verb):
         await c.connect(HOST, PORT)
         try:
             await c.login("bob", pw)
-        except aioftp.StatusCodeError:
+        except (aioftp.StatusCodeError, ValueError, ConnectionError):
             pass
         c.close()
     elif mode == "client_context":
         try:
             async with aioftp.Client.context(HOST, PORT, "bob", pw, path_io_factory=aioftp.MemoryPathIO) as c:
                 await c.get_current_directory()
-        except (aioftp.StatusCodeError, ConnectionError):
+        except (aioftp.StatusCodeError, ConnectionError, ValueError):
             pass
     else:
         raw = harness.Raw()
@@ -200,6 +203,9 @@ def check(ctx, case):
         ctx.evaluations += 1
         ctx.classes["degenerate_template"] += 1
         return
+    if any("\n" in x for x in t) and not mode.startswith("client"):
+        # a password with a line break can only be *attempted* through Client.login(); a raw PASS line cannot carry it
+        mode = "client"
     cap = Cap()
     loggers = [logging.getLogger(), logging.getLogger("aioftp"), logging.getLogger("aioftp.client"),
                logging.getLogger("aioftp.server"), logging.getLogger("asyncio")]
@@ -230,7 +236,8 @@ def check(ctx, case):
     if len(logs[0]) < 4:
         raise Violation("C20/harness/no_log_records", dict(n=len(logs[0])))
     side = "client" if mode.startswith("client") else "server"
-    unencodable = any(x in ("я", "€", "\udc80") for x in t) or (mode in ("client_latin1", "client_ascii") and any(ord(ch) > 127 for x in t for ch in x))
+    unencodable = (any(x in ("я", "€", "\udc80") for x in t) or (mode in ("client_latin1", "client_ascii") and any(ord(ch) > 127 for x in t for ch in x))
+                   or any("\n" in x for x in t))  # (a line break makes the client refuse the attempt: the plain twin logs in instead)
     for other, px in ((logs[1], p2),) if unencodable else ((logs[1], p2), (logs[2], p3)):
         # (the third twin replaces special items by plain characters: with an un-encodable item the sessions legitimately differ)
         if logs[0] != other:
